@@ -18,6 +18,18 @@ def S(h, tiers=Q, **kw):
 
 PROPS = {}
 
+_REC_STUB = ("Fingerprint::compute, MessageIntegrity::compute, MessageIntegritySha256::compute -> recorder stubs with unconstrained output in the blayout harnesses: "
+             "the builder's layout is decided for every MAC/CRC value and the bytes handed to the primitive are asserted (length, rewritten length field, symbolic probe index, key)")
+_LAY_ENC = ("real builder, one raw attribute (symbolic content) + seals: serialised bytes == RFC layout (type field, cookie, id, TLV, zero padding, seal TLVs carrying the primitive's output, "
+            "FINGERPRINT == CRC ^ 0x5354554e), length multiple of 4 == byte_len() == header length + 20; MAC/CRC input == message up to the attribute with the length field covering it, key == password")
+
+
+def _lay(names, tiers=Q):
+    return [K("blayout::c03_layout_" + n, tiers, encodes=_LAY_ENC, bounds="all classes x methods x ids x attribute contents; value length and seal set per harness name",
+              mem=12 if tiers == Q else 40, timeout=1500 if tiers == Q else 7200) for n in names]
+
+
+
 PROPS["C19"] = dict(
     functions=["MessageType::{from_class_method,class,method,from_bytes,write_into,to_bytes}", "MessageClass::to_bits",
                "TransactionId::from(u128)", "u128::from(TransactionId)", "MessageHeader::from_bytes",
@@ -148,7 +160,7 @@ _AGENT_OUT = ["more than 3 concurrent transactions", "two or more requests with 
 def _agent(pid, quick, thorough, extra_assume=()):
     jobs = []
     for h, enc in quick:
-        jobs.append(K("agenth::" + h, encodes=enc, bounds="one API call from an arbitrary valid state", mem=10, timeout=2400))
+        jobs.append(K("agenth::" + h, encodes=enc, bounds="one API call from an arbitrary valid state", mem=26 if h.endswith("sha1") else 10, timeout=2400))
     for h, enc in thorough:
         jobs.append(K("agenth::" + h, T, encodes=enc, bounds="one poll over 2 outstanding requests with abstract per-request outcomes", mem=26, timeout=5400))
     PROPS[pid] = dict(functions=_AGENT_FUNCS, bounds="one arbitrary API call from an arbitrary valid agent state with <= 2 outstanding requests (3 in the aggregation harnesses of the thorough tier), both transports, symbolic instants",
@@ -163,14 +175,19 @@ _SEND = "send(request/indication/response): duplicate refused and nothing change
 
 _agent("C05",
        [("c05_poll_one", _POLL1), ("c05_handle_step", _HANDLE), ("c05_cancel_step", _CANCEL), ("c05_send_step", _SEND + " (no integrity)"),
-        ("c05_send_step_sha1", _SEND + " (SHA-1 integrity)")],
-       [("c05_agg2_o0", _AGG + " (2 requests, order 0,1,2)"), ("c05_agg2_o2", _AGG + " (2 requests, order 1,0,2)"), ("c05_send_step_sha256", _SEND)])
+        ("c05_send_step_sha256", _SEND + " (SHA-256 integrity)")],
+       [("c05_agg2_o0", _AGG + " (2 requests, order 0,1,2)"), ("c05_agg2_o2", _AGG + " (2 requests, order 1,0,2)"), ("c05_send_step_sha1", _SEND + " (SHA-1 integrity; > 20 min, > 20 GB)")])
 _agent("C06",
        [("c06_poll_one", _POLL1 + " [500,1000]+8000 ms"), ("c06_poll_one_zero", _POLL1 + " [0,1]+0 ms"), ("c06_poll_one_long", _POLL1 + " [39500,3840000]+7680000 ms (beyond one hour)"),
         ("c06_cancel_step", _CANCEL), ("c06_send_step", _SEND + "; default 500..16000+8000 ms / TCP 39500 ms")],
        [("c06_agg2_o0", _AGG), ("c06_agg2_o2", _AGG)])
+for _n, _t in [("udp_0", Q), ("udp_3", Q), ("udp_8", Q), ("tcp_8", Q), ("udp_1", T), ("udp_7", T), ("tcp_0", T), ("tcp_3", T)]:
+    PROPS["C06"]["jobs"].append(K("c06cfg::c06_configure_" + _n, _t, encodes="configure_timeout(rto, n, last) installs exactly n intervals rto*2^k (k < n) and the final wait `last` (TCP: no retransmission, final wait = last + rto*(2^n - 1)); "
+                                  "nothing else of the transaction and nothing of another transaction changes", bounds="rto 1..=60000 ms, last 0..=60000 ms (whole milliseconds), n per harness name, arbitrary schedule position", mem=6, timeout=1200))
+PROPS["C06"]["outside"] = [o for o in PROPS["C06"]["outside"]] + ["configure_timeout with sub-millisecond Durations or retransmits > 8"]
 _agent("C07", [("c07_handle_step", _HANDLE), ("c07_send_step", _SEND + "; request_had_credentials false without integrity attribute"),
-               ("c07_send_step_sha1", "request_had_credentials true with MESSAGE-INTEGRITY"), ("c07_send_step_sha256", "request_had_credentials true with MESSAGE-INTEGRITY-SHA256")], [])
+               ("c07_send_step_sha256", "request_had_credentials true with MESSAGE-INTEGRITY-SHA256")],
+       [("c07_send_step_sha1", "request_had_credentials true with MESSAGE-INTEGRITY (> 20 min, > 20 GB: thorough tier only)")])
 _agent("C15", [("c15_handle_step", _HANDLE), ("c15_send_step", "sending never changes the validated set"), ("c15_cancel_step", "cancel never changes the validated set"),
                ("c15_poll_one", "poll never changes the validated set")], [])
 _agent("C18", [("c18_poll_one", _POLL1 + "; retransmitted bytes == stored request bytes (symbolic), addressing"), ("c18_send_step", _SEND + " (symbolic attribute value)"),
@@ -201,14 +218,18 @@ PROPS["C09"] = dict(
         K("c09::c09_crc_16", encodes="same", bounds="len 0..=16", mem=10, timeout=2400),
         K("c09::c09_crc_check_value", encodes="CRC('123456789') == 0xcbf43926 for both the implementation and the reference", bounds="1 vector"),
         K("c09::c09_xor_constant", encodes="wire value == CRC ^ 0x5354554e in to_raw, write_into, from_raw", bounds="all 2^32 CRC values"),
-        K("c09::c09_builder_fingerprint_real_crc", encodes="add_fingerprint: value == crc32_ref(message up to attribute with length covering it) ^ constant", bounds="all type/id/attribute bytes", mem=12, timeout=2400),
-        K("c09::c09_parser_fingerprint_real_crc", encodes="from_bytes accepts [hdr, attr, FP] iff FP value == crc32_ref(own bytes) ^ constant", bounds="all 2^224 contents", mem=12, timeout=2400),
+        K("blayout::c03_layout_l4_fp", T, encodes=_LAY_ENC + " [C09: for EVERY CRC value the builder writes CRC ^ 0x5354554e and hashes the message up to the attribute with the length field covering it]",
+          bounds="all contents", mem=40, timeout=7200),
+        K("c02::c02_verdict_32", encodes="parser: a buffer with a FINGERPRINT is accepted iff the recorded CRC of its own bytes up to the attribute (length field covering it) equals the value; CRC input asserted (recorder stub, every CRC value)",
+          bounds="len 0..=32", mem=8),
+        K("c09::c09_builder_fingerprint_real_crc", T, encodes="add_fingerprint: value == crc32_ref(message up to attribute with length covering it) ^ constant", bounds="all type/id/attribute bytes", mem=30, timeout=7200),
+        K("c09::c09_parser_fingerprint_real_crc", T, encodes="from_bytes accepts [hdr, attr, FP] iff FP value == crc32_ref(own bytes) ^ constant", bounds="all 2^224 contents", mem=30, timeout=7200),
         K("c09::c09_crc_28", T, encodes="same as crc_8", bounds="len 0..=28", mem=16, timeout=5400),
     ],
 )
 
 _c12 = [K("c12::c12_" + n, encodes="write_into == to_raw().to_bytes(); padded length; zero padding; nothing beyond touched; short destination -> TooSmall and untouched",
-          bounds="destination sizes 0..=64 (24 for raw), all values within the C08 bounds", mem=8, timeout=1800)
+          bounds="destination sizes 0..=64 (24 for raw), all values within the C08 bounds", mem=14, timeout=1800)
         for n in ["username", "realm", "nonce", "software", "alternate_domain", "error_code", "unknown_attributes", "message_integrity",
                   "message_integrity_sha256", "userhash", "fingerprint", "priority", "use_candidate", "ice_controlled", "ice_controlling",
                   "password_algorithm", "password_algorithms", "xor_mapped_address", "alternate_server", "raw_attribute"]]
@@ -219,24 +240,32 @@ _BUILD_FUNCS = ["Message::builder", "MessageBuilder::{add_raw_attribute,add_attr
                 "integrity_bytes_from_message,build,write_into,byte_len,into_owned,clone,has_attribute,has_any_attribute}", "AttrOrRaw::{write_into,into_owned}",
                 "RawAttribute::{write_into_unchecked,into_owned}", "Message::from_bytes", "MessageAttributesIter::next"]
 for _n in ["paths_l1_none", "paths_l3_fp", "paths_l2_mi_fp"]:
-    _c12.append(K("builder::c12_" + _n, encodes="build() == write_into(exact) == write_into(larger) prefix, suffix untouched, same after clone()/into_owned(); shorter -> TooSmall, nothing written",
-                  bounds="one raw attribute (symbolic type, 1..3 value bytes) + seals", mem=24, timeout=2400, unwindset=_MEMO_UW))
+    _c12.append(K("builder::c12_" + _n, T, encodes="build() == write_into(exact) == write_into(larger) prefix, suffix untouched, same after clone()/into_owned(); shorter -> TooSmall, nothing written",
+                  bounds="one raw attribute (symbolic type, 1..3 value bytes) + seals", mem=30, timeout=7200, unwindset=_MEMO_UW))
+_c12 += _lay(["l1_none"])  # zero padding + byte_len == serialisation for a built message
 PROPS["C12"] = dict(
     functions=["AttributeWriteExt::write_into", "AttributeWrite::{write_into_unchecked,to_raw} of the 19 built-in types and RawAttribute", "RawAttribute::to_bytes"] + _BUILD_FUNCS,
     bounds="every value within the C08 bounds (text <= 6 bytes, lists <= 3 entries) x every destination size 0..=64; builders with one raw attribute and seal combinations",
     outside=["value lengths 10..=763 (same copy code, not re-run per length)", "builders with more than one ordinary attribute"],
-    stubs=[_MEMO_STUB],
+    stubs=[_MEMO_STUB + " (thorough-tier builder::c12_paths_*)", _REC_STUB],
     jobs=_c12,
 )
 
 PROPS["C03"] = dict(
-    functions=_BUILD_FUNCS,
-    bounds="all classes x methods x transaction ids; one raw attribute of symbolic non-seal type and symbolic content with 0..=5 value bytes (every padding residue) x the 8 sealing combinations {none, MI, SHA256, MI+SHA256, FP, MI+FP, SHA256+FP, MI+SHA256+FP}",
-    outside=["more than one ordinary attribute before the seals", "typed attributes inside a built message (their writers are decided per type in C12/C08)", "values longer than 5 bytes; total size near 64 KiB"],
-    stubs=[_MEMO_STUB],
-    jobs=[K("builder::c03_rt_" + n, tiers, encodes="build -> from_bytes: lengths, header length field, class/method/tid, attribute order/values, seal attributes read back",
-            bounds=n, mem=24, timeout=2400, unwindset=_MEMO_UW)
-          for n, tiers in [("l1_none", Q), ("l4_fp", Q), ("l2_mi", Q), ("l1_mi_sha_fp", Q), ("l3_sha", T), ("l0_mi_fp", T), ("l1_mi_sha", T), ("l5_sha_fp", T)]],
+    functions=_BUILD_FUNCS + _PARSE_FUNCS,
+    bounds="builder side: all classes x methods x transaction ids x one raw attribute (type 0x7f01, symbolic content, 0..=7 value bytes over the harnesses = every padding residue) x 7 of the 8 sealing combinations; "
+           "QUICK TIER seals: none and SHA-256 (the SHA-1 and FINGERPRINT sealing paths are thorough-tier: > 10 min / > 30 GB each in CBMC); parser side: every buffer of 0..=32 bytes (C02's harnesses, registered here too): what a buffer encodes is what the parser exposes",
+    outside=["QUICK TIER is compositional: (1) the builder serialises exactly the RFC layout L(m) [blayout harnesses], (2) every buffer <= 32 bytes, so every L(m) of that size, is parsed back as encoded [c02 harnesses]; "
+             "the end-to-end builder->parser queries in ONE solver call (builder::c03_rt_*) are thorough-tier (30+ min, > 16 GB each)",
+             "more than one ordinary attribute before the seals; attribute types other than 0x7f01 in the builder harnesses (a symbolic type keeps add_raw_attribute's refusal arms feasible and drags core's Debug formatting into the query)",
+             "typed attributes inside a built message (their writers are decided per type in C12/C08)", "values longer than 7 bytes; total size near 64 KiB (length arithmetic: MIR->SMT query in C01)"],
+    stubs=[_REC_STUB, _CRC_STUB, _MEMO_STUB + " (thorough-tier builder::* harnesses)"],
+    jobs=_lay(["l1_none", "l0_none", "l3_sha"]) + _lay(["l4_fp", "l2_mi", "l1_mi_sha_fp", "l5_mi_fp", "l6_sha_fp", "l7_mi_sha"], T) + [
+        K("c02::c02_iter_32", encodes="parser side of the round trip: iter_attributes in lock-step with the reference decoder (type, length, value pointer) on EVERY buffer", bounds="len 0..=32", mem=10),
+        K("c02::c02_verdict_32", encodes="parser side: every well-formed buffer is accepted with the encoded class/method/id", bounds="len 0..=32", mem=8),
+    ] + [K("builder::c03_rt_" + n, T, encodes="build -> from_bytes in one query: lengths, header length field, class/method/tid, attribute order/values, seal attributes read back",
+            bounds=n, mem=30, timeout=7200, unwindset=_MEMO_UW)
+          for n in ["l1_none", "l4_fp", "l2_mi", "l1_mi_sha_fp"]],
 )
 
 
@@ -252,30 +281,47 @@ PROPS["C04"] = dict(
           bounds="len <= 64, <= 2 attributes, password <= 3 bytes", mem=24, timeout=3000),
         K("c04::c04_long_term_key", encodes="long-term key == MD5(user:realm:password) (independent value)", bounds="credentials user/realm/pass", mem=10, timeout=2400),
         K("c04::c04_verify_sha1_all_expected", encodes="MessageIntegrity::verify(d,k,e) is Ok iff e == HMAC-SHA1(k,d) (independent value), compute returns it", bounds="all 2^160 e, fixed d (28 bytes) and k", mem=16, timeout=3000),
+        K("blayout::c03_layout_l2_mi", T, encodes=_LAY_ENC + " [C04 builder side, SHA-1]", bounds="all contents", mem=40, timeout=7200),
+        K("blayout::c03_layout_l3_sha", encodes=_LAY_ENC + " [C04 builder side, SHA-256]", bounds="all contents", mem=12, timeout=1500),
         K("c04::c04_verify_sha256_all_expected", T, encodes="MessageIntegritySha256::verify with truncated expected values", bounds="all e of length 16,20,..,32", mem=16, timeout=5400),
     ],
 )
 
 PROPS["C11"] = dict(
     functions=_BUILD_FUNCS + ["Message::validate_integrity"],
-    bounds="8 operation sequences of length 4 over {add raw X, add raw Y, add typed SOFTWARE, SHA-1 integrity, SHA-256 integrity, fingerprint, into_owned, clone} chosen to hit every rule of the statement "
-           "(duplicate, after integrity, after fingerprint, SHA-1 after SHA-256, duplicate seals, refused-after-into_owned/clone); message type, transaction id, attribute values and the queried type are symbolic",
-    outside=["sequences other than the 8 enumerated ones and sequences longer than 4 (the statement asks for all sequences up to length 7): the guards read only the set of attribute types present, which these sequences drive through every combination of {ordinary, MI, SHA256, FP} present/absent that a refusal depends on",
-             "add_attribute/add_raw_attribute with a seal type (documented panic)"],
-    stubs=[_MEMO_STUB, "core::str::from_utf8 -> RFC 3629 reference (Software::new in the harness)"],
-    jobs=[K("builder::c11_ops_%d" % o, tiers, encodes="each operation refused exactly per the ordering rules; a refused operation leaves byte_len/has_attribute/build unchanged; final message parses, validates, queries agree",
-            bounds="ops %d" % o, mem=24, timeout=3000, unwindset=_MEMO_UW)
-          for o, tiers in [(1141, Q), (4546, Q), (5456, Q), (6456, Q), (3736, T), (2861, T), (1253, T), (4675, T)]],
+    bounds="6 (quick) + 8 (thorough) operation sequences of length 4 over {add raw X, add raw Y, SHA-1 integrity, SHA-256 integrity, fingerprint, into_owned, clone} chosen to hit every rule of the statement "
+           "(duplicate of the last / of an earlier attribute, after integrity, after fingerprint, SHA-1 after SHA-256, duplicate seals, refusal after into_owned/clone); message type, transaction id, attribute values and the queried type are symbolic",
+    outside=["sequences other than the enumerated ones and sequences longer than 4 (the statement asks for all sequences up to length 7): the guards read only the list of attribute types present, which these sequences drive through every combination of {ordinary, MI, SHA256, FP} present/absent that a refusal depends on",
+             "QUICK TIER: 'the serialised message is accepted by the parser with valid integrity and fingerprint' is compositional (the final builder's byte_len/queries/serialised length are asserted here, the byte layout incl. MAC/CRC input in the C03/C04 layout harnesses, acceptance of that layout in C02); "
+             "parse + validate_integrity of the built message in the same query is builder::c11_ops_* (thorough)",
+             "add_attribute/add_raw_attribute with a seal type (documented panic)", "typed attributes (add_attribute) in the quick tier: add_attribute and add_raw_attribute share the refusal match (thorough-tier sequence 3736 uses SOFTWARE)"],
+    stubs=[_REC_STUB, _MEMO_STUB + " (thorough)", "core::str::from_utf8 -> RFC 3629 reference (Software::new in the thorough harness)"],
+    jobs=[K("blayout::c11_rules_%s" % o, encodes="each operation refused exactly per the ordering rules; a refused operation leaves byte_len()/has_attribute(q) unchanged; into_owned/clone change nothing; final queries, byte_len and serialised length agree with the accepted operations",
+            bounds="ops %s" % o, mem=8, timeout=1500)
+          for o in ["1215", "5512", "2812", "1171", "1752", "2127"]]
+         + [K("blayout::c11_rules_%s" % o, T, encodes="same, sequences with SHA-1 integrity / FINGERPRINT operations", bounds="ops %s" % o, mem=40, timeout=7200)
+            for o in ["1141", "4546", "5456", "6456", "1216", "2861", "4675", "5666"]]
+         + [K("builder::c11_ops_%d" % o, T, encodes="as above + after every refusal build() is byte-identical; final message parses, validates, queries agree with the parsed message",
+              bounds="ops %d" % o, mem=30, timeout=7200, unwindset=_MEMO_UW) for o in (1141, 4546, 3736, 2861)],
 )
 
+_POLICE_UW = [["id:check_attribute_types", "*", 3], ["stun-types/src/message.rs", "next", 3]]
+_POLICE_STUB = ("Message::unknown_attributes / Message::bad_request -> recorder stubs that record their arguments and return the REAL Message::builder_error(request) "
+                "(the verdict logic of check_attribute_types and builder_error's panic check are the real code; the attribute-adding half of the constructors is decided in c16_response_*_parses_back)")
 PROPS["C16"] = dict(
     functions=["Message::{check_attribute_types,unknown_attributes,bad_request,builder_error}", "AttributeType::comprehension_required", "ErrorCode::new", "UnknownAttributes::new",
                "MessageBuilder::{add_attribute,into_owned,build}", "Message::from_bytes", "Message::attribute"],
     bounds="every accepted request of <= 28 bytes (<= 2 attributes) x every supported/required list of <= 2 types; the 420/400 responses parsed back for all methods, ids and (two) unsupported types; all 65536 types for comprehension_required",
-    outside=["QUICK TIER: the policing verdict itself (check_attribute_types) is only decided in the thorough tier -- its error-response builder path is 3.3 M symex steps (> 10 min) even for a header-only request; the quick tier decides the classification of all 65536 types and the wire form of the response attributes",
-             "requests with more than 2 attributes, lists longer than 2", "non-request messages: policing them panics in builder_error (observed by reading and a native test, see DESIGN 8; no solver harness finishes on that path)"],
-    stubs=[_CRC_STUB],
+    outside=["QUICK TIER: only the classification of all 65536 types and the wire form of the response attributes; the policing VERDICT (None/420/400, list order, response header) is thorough-tier: "
+             "c16_two_attrs_rec needs 22 min / 21 GB (measured), the closure/iterator nest of check_attribute_types is 3-6 M symex steps for every message shape tried",
+             "requests with more than 2 attributes, lists longer than 2", "non-request messages (the statement is about requests; policing a non-request is C01, known finding F-C01-3)"],
+    stubs=[_CRC_STUB, _POLICE_STUB],
     jobs=[
+        K("c16::c16_two_attrs_rec", T, encodes="check_attribute_types on [header, A, B] (symbolic method, id, types A/B, supported <= 2, required <= 1): None/420/400 verdict, 420 before 400, error class/method/id, "
+          "the list handed to unknown_attributes == the unsupported comprehension-required types in MESSAGE order (response constructors are recorder stubs)", bounds="all A, B (non-seal), all lists", mem=30, timeout=5400,
+          unwindset=_POLICE_UW),
+        K("c16::c16_verdict_rec_28", T, encodes="same verdict/list assertions on every accepted request of <= 28 bytes against the reference decoder's exposed attributes", bounds="len <= 28, lists <= 2", mem=20, timeout=5400,
+          unwindset=_POLICE_UW),
         K("c16::c16_comprehension_required_all_types", encodes="comprehension_required(t) == (t < 0x8000)", bounds="all 65536 types"),
         K("c16::c16_error_attributes_wire", encodes="ERROR-CODE 420/400 and UNKNOWN-ATTRIBUTES (the attributes of every policing response) encode as RFC 8489 requires, list order preserved", bounds="all pairs of types"),
         K("c16::c16_verdict", T, encodes="check_attribute_types == oracle: 420 iff an exposed type < 0x8000 is unsupported, else 400 iff a required type is absent, else None; response class/id/attributes", bounds="len <= 28, lists <= 2", mem=20, timeout=3000),
@@ -293,7 +339,7 @@ PROPS["C01"] = dict(
            "64 KiB arithmetic: every checked-arithmetic site of from_bytes / validate_integrity / padded_attr_len / builder length code as a bit-vector query over root ranges up to 70000 (contracts.json)",
     outside=["the tracing-subscriber path (no-op shim = no subscriber installed)", "Display/Debug formatting (not encoded: format! machinery; see DESIGN)", "whole-message behaviour between 45 bytes and 64 KiB except through the MIR->SMT kernels",
              "allocation failure, stack depth"],
-    stubs=[_CRC_STUB, "MessageIntegrity(Sha256)::verify -> recorder (c04_validate_record, registered here for panic freedom of validate_integrity)", "core::str::from_utf8 -> RFC 3629 reference in the typed harnesses"],
+    stubs=[_CRC_STUB, _POLICE_STUB, "MessageIntegrity(Sha256)::verify -> recorder (c04_validate_record, registered here for panic freedom of validate_integrity)", "core::str::from_utf8 -> RFC 3629 reference in the typed harnesses"],
     jobs=[
         K("c01::c01_message_type_any_length", encodes="MessageType::from_bytes / try_from on 0..=4 bytes: no panic", bounds="len 0..=4"),
         K("c01::c01_header_any_length", encodes="MessageHeader::from_bytes: no panic", bounds="len 0..=24"),
@@ -301,6 +347,10 @@ PROPS["C01"] = dict(
         K("c01::c01_raw_attribute_70000", encodes="RawAttribute::from_bytes across the 16-bit boundary", bounds="len 0..=70000", mem=24, timeout=2400),
         K("c01::c01_inspect_32", encodes="from_bytes on arbitrary bytes, then full iteration, has_attribute(q), class queries: no panic, terminates", bounds="len 0..=32", mem=12, timeout=2400),
         K("c01::c01_typed_error_code", encodes="attribute::<ErrorCode>() on every accepted message", bounds="len 0..=32", mem=12, timeout=2400),
+    ] + [K("c01::c01_policing_header_only_" + c, encodes="check_attribute_types on a header-only %s with a symbolic required type: no panic (known finding F-C01-3 for non-requests)" % c,
+           bounds="20-byte message, required list 0..=1", mem=6) for c in ("request", "indication", "success", "error")] + [
+        K("c01::c01_policing_any_class_24", T, encodes="check_attribute_types on every accepted message of ANY class (<= 1 attribute) with symbolic supported/required lists: no panic", bounds="len 0..=24, lists <= 1",
+          mem=30, timeout=5400, unwindset=_POLICE_UW),
         K("c04::c04_validate_record", encodes="validate_integrity with arbitrary short-term credentials: no panic, unreachable!() not reached", bounds="len <= 64, <= 2 attributes", mem=24, timeout=3000),
         S("smt::stun-types", encodes="MIR->SMT: no checked-arithmetic site of the message/attribute length code can overflow for sizes up to 70000 / messages up to 65555 bytes", bounds="root ranges of smt/contracts.json",
           crate="stun-types", min_sites=20),
